@@ -3,8 +3,14 @@
 package shell_operator
 
 import (
+	"fmt"
+	"path/filepath"
+	"strings"
+
+	"github.com/flant/shell-operator/pkg/app"
 	"github.com/flant/shell-operator/pkg/task"
 	"github.com/flant/shell-operator/pkg/task/queue"
+	"github.com/flant/shell-operator/pkg/webhook/admission"
 )
 
 // VerifC18Setup loads the hooks of hooksDir the way Init does (event managers, hook managers,
@@ -38,4 +44,28 @@ func (op *ShellOperator) VerifC18EnableSchedules(t task.Task) queue.TaskResult {
 // tasks for one tick of crontab.
 func (op *ShellOperator) VerifC18ScheduleEvent(crontab string) []task.Task {
 	return op.ManagerEventsHandler.scheduleCb(crontab)
+}
+
+// VerifC18InitAdmission runs the real initValidatingWebhookManager on an operator prepared by
+// VerifC18Setup, with settings whose CA file exists (caPath) and whose server key pair does not:
+// Init(), EnableAdmissionBindings() for every hook with kubernetesValidating / kubernetesMutating
+// bindings and WithAdmissionEventHandler(<the real closure: HookRun task -> op.taskHandler>) run as
+// in production, then Start() gives up at tls.LoadX509KeyPair, before anything listens or talks to a
+// cluster. The returned handler is the manager's real WebhookHandler (chi router + closure); nil
+// means that no hook has an admission binding.
+func (op *ShellOperator) VerifC18InitAdmission(caPath, tempDir string) (*admission.WebhookHandler, error) {
+	settings := *app.ValidatingWebhookSettings
+	settings.CAPath = caPath
+	settings.ServerCertPath = filepath.Join(tempDir, "verif-no-such-cert.crt")
+	settings.ServerKeyPath = filepath.Join(tempDir, "verif-no-such-cert.key")
+	op.AdmissionWebhookManager.Settings = &settings
+
+	err := op.initValidatingWebhookManager()
+	if err != nil && !strings.Contains(err.Error(), "load TLS certs") {
+		return nil, err
+	}
+	if err == nil && op.AdmissionWebhookManager.Handler != nil {
+		return nil, fmt.Errorf("verif: the webhook server was expected not to start")
+	}
+	return op.AdmissionWebhookManager.Handler, nil
 }
